@@ -604,6 +604,17 @@ def _run_pumps(case, ctx):
     without, freqs, _ = _raman_run(chans, powers, fp, base_method, case['order'], case['step'], case['res'])
     with_p, _, fib = _raman_run(chans, powers, fp, case['method'], case['order'], case['step'], case['res'],
                                 cls=RamanFiber, operational={'temperature': case['temperature'], 'raman_pumps': pumps})
+    # the same RamanFiber with its pumps turned down to nothing attenuates like the plain fibre (whole budget: padding and
+    # connectors included)
+    dark = [dict(pp, power=1e-12) for pp in pumps]
+    off, _, _ = _raman_run(chans, powers, fp, base_method, case['order'], case['step'], case['res'],
+                           cls=RamanFiber, operational={'temperature': case['temperature'], 'raman_pumps': dark})
+    for f, o, wo in zip(freqs, off, without):
+        if not (math.isfinite(o) and abs(o - wo) <= 1e-6 * wo):
+            ctx.violation('RamanFiber.__call__:pumps-off-differs-from-plain-fibre',
+                          f'ch {f}: P_out/P_in {o!r} with pumps at 1e-12 W, plain fibre {wo!r} (att_in {fp.get("att_in")}, '
+                          f'con_in {fp.get("con_in")})')
+            return
     gains = []
     for f, w, wo in zip(freqs, with_p, without):
         if not (math.isfinite(w) and w > 0):
